@@ -1,10 +1,12 @@
-(** The one-pass parameter expansion (Model/ExpandOnce.v, the proposed repair of C10)
-    computes exactly the reference semantics [den_pieces], for EVERY world: the inserted
-    values are never looked at again, so no condition on them is needed. *)
+(** The one-pass parameter expansion (Model/Expand.v: expand_env_once, behind the gate
+    env_in_token) computes exactly the reference semantics [den_pieces], for EVERY world: the
+    inserted values are never looked at again, so no condition on them is needed.  The only
+    condition left is the gate's: the literals of the word keep clear of the exemption shapes. *)
 From Coq Require Import List NArith ZArith Bool Lia.
-From Cicada Require Import Base.Chars Base.Tag Base.Regex Gen.ShellRegexes Model.Expand Model.ExpandRef Model.ExpandOnce Proofs.ExpandBasics Proofs.EnvProofs.
+From Cicada Require Import Base.Chars Base.Tag Base.Regex Gen.ShellRegexes Model.Expand Model.ExpandRef Proofs.ExpandBasics Proofs.EnvProofs.
 Import ListNotations.
 Local Open Scope N_scope.
+
 
 (* ================================================================== characters *)
 Lemma name_start_not c :
@@ -104,22 +106,23 @@ Theorem once_is_den : forall W ps,
   wf_pieces ps = true -> expand_env_once W (render_pieces ps) = den_pieces W ps.
 Proof. intros W ps H. unfold expand_env_once. apply once_go_is_den. exact H. Qed.
 
+
 (* ================================================================== 2: token level, behind the gate *)
-Lemma count_pos_split ps :
-  count_refs ps <> 0%nat -> exists a br k b, ps = a ++ PRef br k :: b.
+(** the gate is open on every word that holds a reference *)
+Theorem gate_true : forall noeq ps,
+  wf_pieces ps = true -> lits_okg noeq ps = true -> count_refs ps <> 0%nat ->
+  env_in_token (render_pieces ps) = true.
 Proof.
-  induction ps as [|p r IH]; intros H; [exfalso; apply H; reflexivity|].
-  destruct p as [c|br k].
-  - rewrite count_lit in H. destruct (IH H) as (a & br & k & b & ->).
-    exists (PLit c :: a), br, k, b. reflexivity.
-  - exists [], br, k, r. reflexivity.
+  intros noeq ps Hwf Hl Hc.
+  destruct (count_pos_split ps Hc) as (a & br & k & b & ->).
+  exact (env_in_render_ref noeq _ _ _ _ Hwf Hl).
 Qed.
 
-Theorem once_tok_is_den : forall W noeq ps tg,
-  wf_pieces ps = true -> lits_ok noeq ps = true -> tg <> TSq -> tg <> TBq ->
-  expand_env_tok1 W (tg, render_pieces ps) = (tg, den_pieces W ps).
+Lemma expand_env_tok_den_noeq W noeq ps tg :
+  wf_pieces ps = true -> lits_okg noeq ps = true -> tg <> TSq -> tg <> TBq ->
+  expand_env_tok W (tg, render_pieces ps) = (tg, den_pieces W ps).
 Proof.
-  intros W noeq ps tg Hwf Hl Hsq Hbq.
+  intros Hwf Hl Hsq Hbq.
   assert (E : (if env_in_token (render_pieces ps)
                then (tg, expand_env_once W (render_pieces ps))
                else (tg, render_pieces ps)) = (tg, den_pieces W ps)).
@@ -128,21 +131,55 @@ Proof.
       destruct (env_in_token (render_pieces ps)).
       + rewrite (once_is_den W ps Hwf). reflexivity.
       + rewrite Hden. reflexivity.
-    - destruct (count_pos_split ps Hc) as (a & br & k & b & ->).
-      rewrite (env_in_render_ref noeq _ _ _ _ Hwf Hl).
+    - rewrite (gate_true noeq ps Hwf Hl Hc).
       rewrite (once_is_den W _ Hwf). reflexivity. }
-  unfold expand_env_tok1. cbn [fst snd].
+  unfold expand_env_tok. cbn [fst snd].
   destruct tg; try contradiction; exact E.
 Qed.
 
-(* ================================================================== 3: quoted tokens are untouched *)
-Theorem once_tok_quoted : forall W t,
-  fst t = TSq \/ fst t = TBq -> expand_env_tok1 W t = t.
+Theorem expand_env_tok_den : forall W ps tg,
+  wf_pieces ps = true -> gate_ok ps = true -> tg <> TSq -> tg <> TBq ->
+  expand_env_tok W (tg, render_pieces ps) = (tg, den_pieces W ps).
 Proof.
-  intros W t [H|H]; unfold expand_env_tok1; rewrite H; reflexivity.
+  intros W ps tg Hwf Hg Hsq Hbq. unfold gate_ok in Hg.
+  apply orb_true_iff in Hg as [Hg|Hg]; eapply expand_env_tok_den_noeq; eauto.
+Qed.
+
+(* ================================================================== 3: a whole line *)
+(** a whole line: words given as (tag, segment list) *)
+Definition word_in (w : tag * list piece) : Prop :=
+  fst w = TSq \/ fst w = TBq \/ (wf_pieces (snd w) = true /\ gate_ok (snd w) = true).
+Definition word_text (w : tag * list piece) : token := (fst w, render_pieces (snd w)).
+Definition word_den (W : World) (w : tag * list piece) : token :=
+  (fst w, match fst w with TSq | TBq => render_pieces (snd w) | _ => den_pieces W (snd w) end).
+
+Lemma expand_env_word W w : word_in w -> expand_env_tok W (word_text w) = word_den W w.
+Proof.
+  destruct w as [tg ps]. unfold word_in, word_text, word_den. cbn [fst snd].
+  intros [H|[H|[Hwf Hg]]].
+  - subst tg. reflexivity.
+  - subst tg. reflexivity.
+  - destruct tg; try reflexivity; apply expand_env_tok_den; auto; discriminate.
+Qed.
+
+Theorem expand_env_line : forall W ws,
+  Forall word_in ws -> expand_env W (map word_text ws) = map (word_den W) ws.
+Proof.
+  intros W ws H. unfold expand_env. rewrite map_map.
+  induction H as [|w ws Hw _ IH]; [reflexivity|].
+  cbn [map]. rewrite (expand_env_word W w Hw), IH. reflexivity.
 Qed.
 
 (* ================================================================== 4: examples *)
+(** the remaining exemption, for every world: the double-quoted token x='$A' is left as it is *)
+Example gate_exempts_dq : forall W,
+  expand_env_tok W (TDq, [120; 61; 39; 36; 65; 39]) = (TDq, [120; 61; 39; 36; 65; 39]).
+Proof.
+  intros W. unfold expand_env_tok; cbn [fst snd].
+  replace (env_in_token [120; 61; 39; 36; 65; 39]) with false by (vm_compute; reflexivity).
+  reflexivity.
+Qed.
+
 (** A = "x$B", B = "y": the inserted dollar is not rescanned *)
 Example once_no_rescan :
   expand_env_once (world_of [([65], [120; 36; 66]); ([66], [121])] []) [36; 65] = [120; 36; 66].
@@ -169,5 +206,7 @@ Example once_digit :
 Proof. vm_compute. reflexivity. Qed.
 
 Print Assumptions once_is_den.
-Print Assumptions once_tok_is_den.
-Print Assumptions once_tok_quoted.
+Print Assumptions gate_true.
+Print Assumptions expand_env_tok_den.
+Print Assumptions expand_env_line.
+Print Assumptions gate_exempts_dq.
